@@ -218,6 +218,8 @@ KILL_SCRIPTS = {
     "subshell": "(sleep {tok}; echo x) ; echo y",
     # the shell exits at once; the background command keeps the output pipes open, so the task is still 'running'
     "background-nowait": "sleep {tok} &",
+    # a command that ignores SIGTERM while the shell itself dies of it
+    "term-immune": "(trap '' TERM; exec sleep {tok}) & wait",
 }
 
 
